@@ -9,12 +9,14 @@ UNITS_LOCAL = {"C08": [
          flags=ASAN, env=_ENV, opt="-O1", engine="seqmc",
          budget={"quick": 100, "thorough": 1000},
          rule=("every history of 1..6 (thorough 1..7) enabled operations, shortest first, over a pool of 2 heap objects (obj0 a Node:Base, obj1 a Derived:Base, both counting destructor runs and both "
-               "owning a member handle `IntrusivePtr<Base> next`) and 3 heap-allocated handle slots (h0,h1 IntrusivePtr<Base>, h2 Ref<Derived>), each replayed on fresh objects inside a forked ASan+UBSan shard; alphabet of 67: "
+               "owning a member handle `IntrusivePtr<Base> next`) and 3 heap-allocated handle slots (h0,h1 IntrusivePtr<Base>, h2 Ref<Derived>), each replayed on fresh objects inside a forked ASan+UBSan shard; alphabet of 75: "
                "create object k, creator refDec / refInc (creator holds 0..2 references), per slot default-construct, construct from raw k / from null raw, copy-construct from the other Base slot, move-construct, "
                "converting construct Base<-Derived handle, copy-assign (incl. to itself), move-assign (incl. to itself), assign converted Derived handle, assign raw k, assign null, destroy slot; "
                "objects owning handles: h_i = new obj_k with the creator reference dropped (the handle is the only owner), obj_k.next = h_j (both j) / = null, "
                "h_i = h_j->next for all i,j in {0,1} (i==j is the list walk that releases the object holding the source handle), h_i = h_j->next.ptr likewise, copy-construct and move-construct h_i from h_j->next. "
-               "Reference model: count = creator references + slots + member handles of live objects pointing at the object; an object whose count reaches 0 dies and releases its member (cascade, cycles stay alive). "
+               "obj0 (the Node) also owns a member handle of the derived type, `IntrusivePtr<Derived> dnext`: obj0.dnext = h2 / = null, h_i = h_j->dnext for all i,j in {0,1} with h_j pointing at obj0 "
+               "(Base handle assigned from a Derived member handle, i==j releases the object holding the source), converting copy-construct h_i from h_j->dnext. "
+               "Reference model: count = creator references + slots + member handles (next and dnext) of live objects pointing at the object; an object whose count reaches 0 dies and releases its member (cascade, cycles stay alive). "
                "After every step: destructor-run counters say destroyed exactly once and exactly at the step where the model count reached 0 (directly or by cascade), useCount() == model count for every live object, "
                "every slot's ptr / -> / bool / * and every live object's member name the object the model says, and (per newly reached history) ==, !=, < of all Base handle pairs agree with pointer identity. "
                "Teardown of every history (creator re-takes a reference to each live object, clears the members, destroys the slots, releases its references) is checked the same way and must destroy everything. "
